@@ -97,10 +97,19 @@ def generate(tier, seed, shard, nshards):
             # bridged elements (both terminals on one node): they must not change any port impedance
             G.add_self_loops(random.Random(f'{seed}/{shard}/{k}/loop'), d); stratum += '+self-loop'
         yield {'kind': 'net', 'stratum': stratum, 'net': d}
-    for _ in range(N_CIRC[tier] // nshards):
+    for k in range(N_CIRC[tier] // nshards):
         cd = GC.random_circuit(rng, max_nodes=5, max_comps=8, n_reactive=(1, 3), sources=['dc_voltage_source', 'ac_voltage_source', 'dc_current_source'],
                                n_sources=(0, 2), lossy=0.3)
-        yield {'kind': 'circ', 'circuit': cd, 'ws': [0.0] + [10 ** rng.uniform(0, 5) for _ in range(5)]}
+        ws = [0.0] + [10 ** rng.uniform(0, 5) for _ in range(5)]
+        if k % 5 == 4:
+            # very slow sweeps (periods of hours) over very large L and C: a frequency within the source-matching resolution of zero is
+            # still a frequency - jwL and 1/(jwC) are what they are
+            for c in cd['components']:
+                for key in ('L', 'C'):
+                    if key in c['args'] and c['ctor'] in ('inductance', 'capacitor'):
+                        c['args'][key] = c['args'][key] * 1e6
+            ws = [0.0, 2e-4, 5e-4, 1e-3, 3e-3] + ws[1:3]
+        yield {'kind': 'circ', 'circuit': cd, 'ws': ws}
 
 
 def ztol(ref_net, zref, a=None, b=None):
